@@ -101,6 +101,11 @@ func execC15(t *testing.T, p Plan, src kernel.Source) Result {
 		for _, op := range p.Steps[0].Pipe {
 			data = append(data, encode(spec.Proto, op)...)
 		}
+		if len(p.Faults) > 0 {
+			// a second fault in the same request: the backend refuses one of the victim's
+			// backend requests while the client is going away
+			w.ArmFor(p.Faults, victim.Name)
+		}
 		cut := int(p.X["cut"])
 		if cut > len(data) {
 			cut = len(data)
@@ -126,7 +131,11 @@ func execC15(t *testing.T, p Plan, src kernel.Source) Result {
 			viol("no_quiescence", class, "no quiescence after the client closed at byte %d", cut)
 			return
 		}
+		w.Disarm()
 		where := fmt.Sprintf("client closed after %d of %d bytes of %s", cut, len(data), describePipe(p.Steps[0].Pipe))
+		if len(p.Faults) > 0 {
+			where += fmt.Sprintf(" while the backend refused %v", p.Faults)
+		}
 		if p.X["close_first"] != 0 {
 			where += fmt.Sprintf(" (sent and closed at once, write mode silent=%v)", p.X["silent"] != 0)
 		}
@@ -387,6 +396,25 @@ func enumC15(tier string) []Plan {
 								out = append(out, r)
 							}
 						}
+						// ... and a multi-key read that is sent completely, with the keys hot in L1
+						// or in L2 only, while L1 refuses one of its backend requests (the client
+						// leaves and the backend fails within one request)
+						if c15Reads(ops) && len(ops[0].Keys) >= 2 && cfg.Shape != "l1only" && cut == len(data) {
+							for idx := 0; idx < 4; idx++ {
+								for _, place := range []string{"warm", "l2only"} {
+									q := p.Clone()
+									q.Seed += uint64(1)<<39 + uint64(idx)<<41
+									if place == "l2only" {
+										q.Seed += 1 << 40
+									}
+									q.X[place] = 1
+									q.X["close_first"] = 1
+									q.X["silent"] = int64(idx % 2)
+									q.Faults = []kernel.Fault{{Kind: "status", Tier: "l1", Index: idx, Status: 0x82}}
+									out = append(out, q)
+								}
+							}
+						}
 						// ... and, on the batch port, with the keys hot in L1 (stored via the main port)
 						if c15Reads(ops) && port == "batch" && (tier == "thorough" || cut%3 == 0 || cut >= len(data)-2) {
 							q := p.Clone()
@@ -441,10 +469,10 @@ func genC15(seed uint64, tier string) Plan {
 func init() {
 	register(&Prop{
 		ID: "C15", Gen: genC15, Exec: execC15, Enumerate: enumC15, Level: "fault_enumeration",
-		Rule:       "fault = the client closes its connection after exactly n bytes of its request stream. Enumerated part: representative streams (each command, a large set, pipelines, quiet batches, quiet sets, quit alone / after a miss / after a quiet set, quiet quit; 12 text + 17 binary) x 12 deployments (L1-only / L1L2 / batch port, direct or chunked per-connection handlers, with and without the locking wrapper) x every prefix length n = 0..len (quick: every n for a rotating quarter of the pairs, stride 7 plus both ends for the rest; thorough: every n), each cut also in the variant where the client sends and closes in the same instant so that rend's replies meet a dead socket (EPIPE, and at request ends also the silent write mode). Selected cuts (both ends, every 23rd / thorough every 5th byte) also with a second client that connected to the same port while the first was idle: it must keep its backend connections, still be served after the first client left, and release its own when it leaves in turn. Read-only streams (single and multi-key gets, gat) also with the keys stored in L2 only (a 40-byte and a 5000-byte value, evicted from L1), so that the reads go through both tiers when the client leaves, and on the batch port with the keys hot in L1 (stored through the main port). Seeded part: random pipelines with a random cut, half of them with the second client, half with the keys a, bb in L2 only. After quiescence: rend closed the client socket, every backend connection dialled for that client is closed, the goroutine count is back to the pre-connection baseline, every key lock acquired was released, no pooled protocol object was handed back twice (poisoning pools), and a fresh client is served on the same keys. Every case is non-trivial (a fault is injected in each); distinct = distinct plan hash",
+		Rule:       "fault = the client closes its connection after exactly n bytes of its request stream. Enumerated part: representative streams (each command, a large set, pipelines, quiet batches, quiet sets, quit alone / after a miss / after a quiet set, quiet quit; 12 text + 17 binary) x 12 deployments (L1-only / L1L2 / batch port, direct or chunked per-connection handlers, with and without the locking wrapper) x every prefix length n = 0..len (quick: every n for a rotating quarter of the pairs, stride 7 plus both ends for the rest; thorough: every n), each cut also in the variant where the client sends and closes in the same instant so that rend's replies meet a dead socket (EPIPE, and at request ends also the silent write mode). Selected cuts (both ends, every 23rd / thorough every 5th byte) also with a second client that connected to the same port while the first was idle: it must keep its backend connections, still be served after the first client left, and release its own when it leaves in turn. Read-only streams (single and multi-key gets, gat) also with the keys stored in L2 only (a 40-byte and a 5000-byte value, evicted from L1), so that the reads go through both tiers when the client leaves, and on the batch port with the keys hot in L1 (stored through the main port). Multi-key reads that are sent completely also run with a second fault in the same request: L1 refuses the victim's backend request #0..3 (out of memory) while the client leaves, keys hot in L1 or in L2 only. Seeded part: random pipelines with a random cut, half of them with the second client, half with the keys a, bb in L2 only. After quiescence: rend closed the client socket, every backend connection dialled for that client is closed, the goroutine count is back to the pre-connection baseline, every key lock acquired was released, no pooled protocol object was handed back twice (poisoning pools), and a fresh client is served on the same keys. Every case is non-trivial (a fault is injected in each); distinct = distinct plan hash",
 		Real:       append(append([]string{}, realFullStack...), "handlers/memcached/chunked", "server/utils.go abort"),
 		Stub:       stubFullStack,
-		FaultKinds: []string{"client_close"},
+		FaultKinds: []string{"client_close", "status"},
 		RunsQuick:  1500, RunsThorough: 40000,
 	})
 }
